@@ -137,6 +137,12 @@ ICallsOK(e, c, v) ==
        /\ e.icalls[1].kind = (IF c.shape = "unary" THEN "unary" ELSE "stream")
        /\ (c.shape # "unary" => e.icalls[1].cs = ClientStreams(c.shape) /\ e.icalls[1].ss = ServerStreams(c.shape))
        /\ (IF v.code = AnyError THEN e.icalls[1].err > 0 ELSE e.icalls[1].err = (IF v.failed THEN v.code ELSE -1))
+       \* a stream interceptor that passes a wrapping stream on sees every message of the call go through it
+       /\ (c.shape # "unary" =>
+             /\ e.icalls[1].recv = Cardinality({k \in DOMAIN e.h.recv : e.h.recv[k].err = ""})
+             /\ e.icalls[1].send = Cardinality({k \in DOMAIN e.h.sends : e.h.sends[k].err = ""}))
+       \* with a stats handler installed the interceptor (and the handler) run on the context TagRPC returned
+       /\ (Opt(e, "stats") => e.icalls[1].tag)
 Count(s, t) == Cardinality({k \in DOMAIN s : s[k].t = t})
 StatsOK(e, c, v) ==
   Opt(e, "stats") =>
@@ -147,6 +153,9 @@ StatsOK(e, c, v) ==
     /\ \A k \in 4..(n - 1) : st[k].t \in {"inpayload", "outheader", "outpayload", "outtrailer"}
     /\ \A k \in 4..(n - 1) : st[k].t = "outtrailer" => k = n - 1
     /\ Count(st, "end") = 1 /\ Count(st, "outheader") <= 1
+    \* every event of the RPC arrives on the context TagRPC returned, and so does the handler's context
+    /\ \A k \in 1..n : st[k].tag
+    /\ (e.h.invoked = 1 => e.h.tagged)
     \* one InPayload per received message; on HTTP transcoding a message that had no wire payload
     \* (empty body) may go unreported
     /\ Count(st, "inpayload") <= Len(v.recvd)
